@@ -308,6 +308,31 @@ def correspondence(ctx):
             continue
         check(ctx, "gem-native", e, VR.GemVersionRange.from_native, V.RubygemsVersion,
               lambda t: req.satisfied_by(G.GemVersion(t)), bd, kind not in ("exact", "ge"))
+    # gem `~>` on four and five numeric segments (the upper bound drops the last segment and bumps the one before it)
+    rng = ctx.rng("c06", "gem-long")
+    for _ in range(per // 4 + 4):
+        n = rng.choice([4, 5, 5, 6])
+        v = [rng.randint(0, 4) for _ in range(n)]
+        e = "~> " + ".".join(map(str, v))
+        ctx.count("gem-long", key=e, nontrivial=True)
+        try:
+            r = VR.GemVersionRange.from_native(e)
+        except Exception as ex:  # noqa: BLE001
+            ctx.disagree("gem-long", e, "raises %s" % type(ex).__name__, "a range", True, {"native": e, "clause": "conversion raises"}, spec="converts")
+            continue
+        up = v[:-2] + [v[-2] + 1]
+        probes = [(v, True), (v[:-1] + [v[-1] + 3], True), (up, False), (up + [0], False), (v[:-2] + [v[-2], 9, 9], True),
+                  (v[:-3] + [v[-3] + 1], False)] + ([(v[:-1] + [v[-1] - 1], False)] if v[-1] > 0 else [])
+        for pv, want in probes:
+            t = ".".join(map(str, pv))
+            try:
+                got = V.RubygemsVersion(t) in r
+            except Exception as ex:  # noqa: BLE001
+                got = "raises %s" % type(ex).__name__
+            if got != want:
+                ctx.disagree("gem-long", "%s @%s" % (e, t), str(got), str(want), True,
+                             {"native": e, "vers": str(r), "probe": t, "clause": "membership of %s differs" % t}, spec=str(want))
+                break
     # ---------------- pypi
     rng = ctx.rng("c06", "pypi")
     for _ in range(per):
